@@ -168,6 +168,10 @@ pub struct Sub {
     pub encrypt: bool,
     /// 0 unlocked, 1 locked with the primary's password, 2 locked with its own password
     pub lock: u8,
+    /// encryption capability requested for an encryption subkey: 0 both (`All`), 1 storage
+    /// only, 2 communication only
+    #[serde(default)]
+    pub caps: u8,
 }
 
 #[derive(Clone, Debug, Hash, PartialEq, Eq, Serialize, Deserialize)]
@@ -301,10 +305,11 @@ pub fn build(c: &Case) -> Result<pgp::errors::Result<SignedSecretKey>, String> {
         sb.version(sv)
             .key_type(sub.alg.key_type())
             .can_sign(sub.sign)
-            .can_encrypt(if sub.encrypt {
-                EncryptionCaps::All
-            } else {
-                EncryptionCaps::None
+            .can_encrypt(match (sub.encrypt, sub.caps) {
+                (false, _) => EncryptionCaps::None,
+                (true, 1) => EncryptionCaps::Storage,
+                (true, 2) => EncryptionCaps::Communication,
+                (true, _) => EncryptionCaps::All,
             })
             .created_at(Timestamp::from_secs(KEY_CREATED + 1 + i as u32));
         match sub.lock {
@@ -615,7 +620,7 @@ pub fn run(c: &Case) -> Outcome {
     for (sub, sk) in s.subs.iter().zip(key.secret_subkeys.iter()) {
         if let Some(sig) = sk.signatures.first() {
             let f = sig.key_flags();
-            if f.sign() != sub.sign || f.encrypt_comms() != sub.encrypt || f.encrypt_storage() != sub.encrypt {
+            if f.sign() != sub.sign || f.encrypt_comms() != (sub.encrypt && sub.caps != 1) || f.encrypt_storage() != (sub.encrypt && sub.caps != 2) {
                 fail(&mut o, "subkey-flags-differ", format!("{:?}: {f:?}", sub.alg));
             }
         }
@@ -694,13 +699,18 @@ fn shapes(quick: bool) -> Vec<Shape> {
         for &primary in prim {
             let mut subsets: Vec<Vec<Sub>> = vec![vec![]];
             for &e in encs {
-                subsets.push(vec![Sub { alg: e, sign: false, encrypt: true, lock: 0 }]);
+                subsets.push(vec![Sub { alg: e, sign: false, encrypt: true, lock: 0, caps: 0 }]);
+            }
+            // the narrower encryption capabilities
+            for caps in [1u8, 2] {
+                subsets.push(vec![Sub { alg: encs[encs.len() - 2], sign: false, encrypt: true, lock: 0, caps }]);
+                subsets.push(vec![Sub { alg: encs[0], sign: false, encrypt: true, lock: 0, caps }]);
             }
             for sa in [Alg::Ed25519, Alg::EcdsaP256] {
-                subsets.push(vec![Sub { alg: sa, sign: true, encrypt: false, lock: 0 }]);
+                subsets.push(vec![Sub { alg: sa, sign: true, encrypt: false, lock: 0, caps: 0 }]);
                 subsets.push(vec![
-                    Sub { alg: encs[0], sign: false, encrypt: true, lock: 0 },
-                    Sub { alg: sa, sign: true, encrypt: false, lock: 0 },
+                    Sub { alg: encs[0], sign: false, encrypt: true, lock: 0, caps: 0 },
+                    Sub { alg: sa, sign: true, encrypt: false, lock: 0, caps: 0 },
                 ]);
             }
             for subs in subsets {
@@ -736,7 +746,7 @@ fn shapes(quick: bool) -> Vec<Shape> {
         v.push(Shape {
             v6,
             primary: Alg::Ed25519,
-            subs: vec![Sub { alg: Alg::X25519, sign: false, encrypt: true, lock: 0 }],
+            subs: vec![Sub { alg: Alg::X25519, sign: false, encrypt: true, lock: 0, caps: 0 }],
             lock: 0,
             uids: 1,
             prefs: false,
@@ -754,7 +764,7 @@ fn shapes(quick: bool) -> Vec<Shape> {
         v.push(Shape {
             v6,
             primary: Alg::Ed25519,
-            subs: vec![Sub { alg: Alg::X25519, sign: true, encrypt: false, lock: 0 }],
+            subs: vec![Sub { alg: Alg::X25519, sign: true, encrypt: false, lock: 0, caps: 0 }],
             lock: 0,
             uids: 1,
             prefs: false,
@@ -763,7 +773,7 @@ fn shapes(quick: bool) -> Vec<Shape> {
         v.push(Shape {
             v6,
             primary: Alg::Ed25519,
-            subs: vec![Sub { alg: Alg::Ed25519, sign: false, encrypt: true, lock: 0 }],
+            subs: vec![Sub { alg: Alg::Ed25519, sign: false, encrypt: true, lock: 0, caps: 0 }],
             lock: 0,
             uids: 1,
             prefs: false,
@@ -782,7 +792,7 @@ fn shapes(quick: bool) -> Vec<Shape> {
     v.push(Shape {
         v6: true,
         primary: Alg::Ed25519,
-        subs: vec![Sub { alg: Alg::EcdhCv25519, sign: false, encrypt: true, lock: 0 }],
+        subs: vec![Sub { alg: Alg::EcdhCv25519, sign: false, encrypt: true, lock: 0, caps: 0 }],
         lock: 0,
         uids: 1,
         prefs: false,
@@ -809,7 +819,7 @@ pub fn check(ctx: &Ctx) {
     ctx.run_space(
         "configuration_matrix",
         true,
-        "{v4,v6} x primary {Ed25519Legacy(v4), Ed25519, Ed448(v6), ECDSA P-256/P-384/P-521/secp256k1} x subkey sets {none, each of ECDH P-256/P-384/P-521/Cv25519(v4), X25519, X448, a signing subkey (Ed25519 / ECDSA P-256), encryption+signing} x {unlocked, CFB-locked, AEAD-locked} x user ids 0..3 x preferences {none, set} (+ subkey lock variants; quick tier thins the last three dimensions to a covering diagonal for non-empty subkey sets), plus illegal mixes that must be rejected (v4/v6 subkey mixes, encryption-only primary, wrong capabilities, legacy 25519 in v6, v4 without user id); default rng stream",
+        "{v4,v6} x primary {Ed25519Legacy(v4), Ed25519, Ed448(v6), ECDSA P-256/P-384/P-521/secp256k1} x subkey sets {none, each of ECDH P-256/P-384/P-521/Cv25519(v4), X25519, X448 (encryption capability both / storage only / communication only), a signing subkey (Ed25519 / ECDSA P-256), encryption+signing} x {unlocked, CFB-locked, AEAD-locked} x user ids 0..3 x preferences {none, set} (+ subkey lock variants; quick tier thins the last three dimensions to a covering diagonal for non-empty subkey sets), plus illegal mixes that must be rejected (v4/v6 subkey mixes, encryption-only primary, wrong capabilities, legacy 25519 in v6, v4 without user id); default rng stream",
         sh.par_iter().map(|s| Case {
             shape: s.clone(),
             seed: 1,
@@ -837,9 +847,9 @@ pub fn check(ctx: &Ctx) {
             vec![Alg::EcdhP256, Alg::EcdhP384, Alg::EcdhP521, Alg::EcdhCv25519, Alg::X25519, Alg::X448]
         };
         for sa in subs {
-            bases.push(base_shape(v6, Alg::Ed25519, Some(Sub { alg: sa, sign: false, encrypt: true, lock: 0 })));
+            bases.push(base_shape(v6, Alg::Ed25519, Some(Sub { alg: sa, sign: false, encrypt: true, lock: 0, caps: 0 })));
         }
-        bases.push(base_shape(v6, Alg::Ed25519, Some(Sub { alg: Alg::EcdsaP256, sign: true, encrypt: false, lock: 0 })));
+        bases.push(base_shape(v6, Alg::Ed25519, Some(Sub { alg: Alg::EcdsaP256, sign: true, encrypt: false, lock: 0, caps: 0 })));
     }
     for b in &bases {
         // how many draws does the default generation consume?
@@ -905,7 +915,7 @@ pub fn check(ctx: &Ctx) {
                 shape: Shape {
                     v6,
                     primary: Alg::Rsa2048,
-                    subs: vec![Sub { alg: Alg::Rsa2048, sign: false, encrypt: true, lock: (seed % 3) as u8 }],
+                    subs: vec![Sub { alg: Alg::Rsa2048, sign: false, encrypt: true, lock: (seed % 3) as u8, caps: 0 }],
                     lock: (seed % 3) as u8,
                     uids: 1 + (seed % 3) as u8,
                     prefs: seed % 2 == 0,
